@@ -50,7 +50,11 @@ StaleDefinerConflict(sd) ==
                           \* (the old definer has not been executed successfully since the edit: it is
                           \* PENDING, or still SUCCEEDED from its former life and detached with the failed plan)
                           /\ c \in Keys(sd.state)
-                          /\ (sd.state.nodes[c].sstate = "PENDING" \/ (sd.state.nodes[c].sstate = "SUCCEEDED" /\ sd.state.nodes[c].detached))
+                          /\ \/ sd.state.nodes[c].sstate = "PENDING"
+                             \/ sd.state.nodes[c].sstate = "SUCCEEDED" /\ sd.state.nodes[c].detached
+                             \* (with keep-going the old definer was rerun after the rejection and gave w up:
+                             \* w has no owner any more, which shows that the rejected definition was the only one)
+                             \/ sd.state.nodes[c].sstate = "SUCCEEDED" /\ sd.state.nodes[w].creator = NULL
                           /\ \E f \in ab \ {c} : f \in Keys(sd.state) /\ sd.state.nodes[f].sstate = "FAILED"
 
 (* C01 *)
